@@ -138,6 +138,27 @@ def main():
                 jobs.append((name, ci, c, canon, data))
                 if name == "directed" or ci < 2:
                     items.append({"id": "%s_c%d" % (name, ci), "module": m, "script": script, "wasm": data})
+        # sparse modules: most sections absent; every absent section may instead be present with a zero count, one at a
+        # time, in pairs, and in random subsets (function and code sections independently: both have zero entries)
+        ALLSEC = ["type", "import", "function", "table", "memory", "global", "export", "element", "code", "data"]
+        sparse = [("empty", {}),
+                  ("memonly", {"memory": {"min": 1, "max": 2}, "data": [{"mode": "active", "offset": ["i32.const", b32(4)], "bytes": [1, 2, 3]}],
+                               "exports": [{"name": "memory", "kind": "memory", "idx": 0}]}),
+                  ("globonly", {"globals": [{"t": "i64", "mut": True, "init": ["i64.const", b64(-7)]}], "exports": [{"name": "g", "kind": "global", "idx": 0}]}),
+                  ("typesonly", {"types": [{"p": ["i32"], "r": []}, {"p": [], "r": ["f64"]}]}),
+                  ("importsonly", {"types": [{"p": ["i32"], "r": []}], "imports": [{"mod": "env", "name": "h", "kind": "func", "type": 0, "ret": []},
+                                                                                   {"mod": "env", "name": "g", "kind": "global", "t": "i32", "mut": False}]}),
+                  ("tableonly", {"table": {"min": 2, "max": 5}, "exports": [{"name": "t", "kind": "table", "idx": 0}]})]
+        for name, m in sparse:
+            em = machine.enc_module(machine.norm_module(m))
+            canon = wasm_encode.encode(em)
+            subsets = [[x] for x in ALLSEC] + [["function", "code"], ["code", "data"], ["type", "function"], ALLSEC]
+            subsets += [rng.sample(ALLSEC, rng.randint(2, 6)) for _ in range(4 if tier == "quick" else 40)]
+            for ci, sub in enumerate(subsets):
+                c = {"emitEmpty": sub}
+                if ci % 5 == 4:
+                    c["padall"] = 1
+                jobs.append((name, 1000 + ci, c, canon, wasm_encode.encode(em, c)))
         # the binder's padded LEB fields are themselves checked against Leb128.tla (a sample)
         for n in (32, 64):
             e = wasm_encode.Enc({"padall": 1})
